@@ -158,7 +158,10 @@ def _job(chunk):
         if sample is None and exp["w"] > 0 and len(exp["segs"]) > 1:
             sample = {"ops": ops, "left": l, "right": r, "weight": exp["w"], "segments": exp["segs"]}
         for sig, msg in fails:
-            out.append((sig, msg, {"ops": ops, "left": l, "right": r, "expected": exp}))
+            case = {"ops": ops, "left": l, "right": r, "expected": exp}
+            if sig.startswith("cv_vector"):      # the weight vector needs the weights of the same sequence in the other regions
+                case["others"] = [[a, b, w] for (a, b), w in sorted(_BYOPS.get(tuple(ops), {}).items())]
+            out.append((sig, msg, case))
     return n, out, sample
 
 
@@ -179,7 +182,7 @@ def main(tier, replay=None):
         with open(replay) as fh:
             rp = json.load(fh)
         c = rp["case"]
-        fails = eval_case(c["ops"], c["left"], c["right"], c["expected"], {})
+        fails = eval_case(c["ops"], c["left"], c["right"], c["expected"], {(a, b): w for a, b, w in c.get("others", [])})
         if fails:
             print(f"VIOLATION property={PID} replay={replay}\n  {fails[:3]}")
             return 1
